@@ -283,3 +283,29 @@ Qed.
 (* are_joinable only makes references direct *)
 Lemma Closed_are_joinable s a b : Closed s -> Closed (snd (are_joinable s a b)).
 Proof. apply Closed_agree. apply agree_are_joinable; [reflexivity|apply agree_refl]. Qed.
+
+(* the edge set insert_body leaves, exactly: the CFG after the return edges of the patch's calls and the stitch, plus the patch's edges *)
+Theorem insert_body_edges s b first last lastk end_block added_ft bi offset repl code p pcfg pprox :
+  cfg (insert_body s b first last lastk end_block added_ft bi offset repl code p pcfg pprox) =
+  let r := add_return_edges_for_patch_calls s pcfg in
+  fold_left (fun c e => cfg_add e c) (snd r) (cfg (insert_stitch (fst r) b first last lastk end_block added_ft)).
+Proof.
+  unfold insert_body. destruct (add_return_edges_for_patch_calls s pcfg) as [sa pca]. cbv zeta. cbn [fst snd].
+  match goal with |- cfg (insert_contents ?sc ?b ?bi ?base ?code ?p ?pc ?pp) = _ =>
+    destruct (insert_contents_view sc b bi base code p pc pp) as (_ & V & _); cbv zeta in V; rewrite V end.
+  reflexivity.
+Qed.
+(* and the stitch, exactly: the head's fallthrough (when the split gave it one) is redirected to the patch's first block, and the
+   patch's last block falls through to the tail when both are code *)
+Lemma insert_stitch_edges s b first last lastk end_block added_ft :
+  cfg (insert_stitch s b first last lastk end_block added_ft) =
+  let c := cfg (match added_ft with Some _ => update_fallthrough_target s b first | None => s end) in
+  if is_code s end_block && bkind_eqb lastk KCode then cfg_add (mk_edge' (NB last) (NB end_block) ET_FALLTHROUGH) c else c.
+Proof.
+  unfold insert_stitch. cbv zeta.
+  assert (Hc : is_code (match added_ft with Some _ => update_fallthrough_target s b first | None => s end) end_block = is_code s end_block).
+  { destruct added_ft; [|reflexivity]. unfold is_code.
+    assert (A : agree m_bp s (update_fallthrough_target s b first)) by (apply agree_update_fallthrough_target; [reflexivity|apply agree_refl]).
+    destruct A as [A _]. pose proof (A FBlocks eq_refl) as B. cbn [proj_eq] in B. rewrite B. reflexivity. }
+  rewrite Hc. destruct (is_code s end_block && bkind_eqb lastk KCode); reflexivity.
+Qed.
